@@ -208,6 +208,13 @@ def _worker(job):
 
 def _child(job, conn):
     import threading
+    import resource
+
+    try:  # a runaway symbolic expansion must die with MemoryError (-> inconclusive), not take the machine down
+        lim = int(os.environ.get("VERIF_JOB_MEM_GB", "20")) << 30
+        resource.setrlimit(resource.RLIMIT_AS, (lim, lim))
+    except (ValueError, OSError):
+        pass
 
     res = {}
 
